@@ -26,6 +26,8 @@
    the model with LZ4_compressBound / ZSTD_compressBound / snappy_max_compressed_length. *)
 From Coq Require Import NArith ZArith List Lia String.
 From Mtbl Require Import gen.Consts model.Bytes model.Codec model.Compress proofs.CompressProofs.
+(* source ties: the statements of the C functions the model follows (gen/Ties.v is regenerated from /repo on every run) *)
+From Mtbl Require props.Ties_C15.
 Local Open Scope N_scope.
 
 Theorem T15b_names : 
